@@ -3,7 +3,85 @@
 group("stream", family="vec", shrinks={}, overlays={"src/storage/stream.rs": "ovl_stream.rs"},
       subst=[(r"\A", "#![cfg_attr(kani, feature(allocator_api))]\n", "src/lib.rs")])
 
+VEC = ["std::vec::Vec::new -> Vec::with_capacity(4) (capacity is unobservable)",
+       "std::vec::Vec::push -> write without growing; a push beyond the reserved capacity FAILS the harness (nothing cut)"]
+CLONE0 = ["<StreamEntry as Clone>::clone -> exact clone for entries with an empty field map (shape asserted inside the stub)"]
+CLOCK = ["storage::stream::get_cached_millis -> arbitrary u64 chosen by the harness (over-approximates the cached wall clock; the real function is decided by c15_cached_millis_total)"]
+INV = "pre-state: any stream satisfying the invariant (entries strictly increasing, all <= last_id, three last_id copies and length agree)"
+
 K("c15_id_order", "stream", ["C15"], tier="quick", timeout=300,
   desc="StreamId order is lexicographic on (millis, seq); new/millis/seq round trip; min/max are the extremes",
-  encodes=["StreamId::new", "StreamId::millis", "StreamId::seq", "StreamId::cmp", "StreamId::partial_cmp"],
+  encodes=["StreamId::new", "StreamId::millis", "StreamId::seq", "StreamId::cmp", "StreamId::partial_cmp", "StreamId::min", "StreamId::max"],
   bounds="two full-width symbolic IDs (4 x u64)")
+K("c15_id_parse_rest", "stream", ["C15", "C06"], tier="quick", timeout=600,
+  desc="StreamId::from_string on every ASCII text of <=5 bytes without an empty numeric part == reference grammar <ms>-<seq> (the <ms> short form is refused cleanly); never panics",
+  encodes=["StreamId::from_string", "StreamId::parse_u64_fast"], bounds="<=5 symbolic ASCII bytes, symbolic length; unwind 7")
+K("c15_id_parse_kf", "stream", ["C15", "C06"], tier="thorough", timeout=600, expect="kf:KF-C15-id-empty-part",
+  desc="region: text has an empty numeric part ('-', '5-', '-5'): must be refused, ferrous reads the empty part as 0",
+  encodes=["StreamId::from_string", "StreamId::parse_u64_fast"], bounds="<=5 symbolic ASCII bytes; unwind 7")
+K("c15_xadd_idbytes_rest", "stream", ["C15", "C06"], tier="quick", timeout=600, memsafe=True,
+  desc="XADD explicit-ID argument path (from_utf8_unchecked + StreamId::from_string, as in commands::streams::handle_xadd) on arbitrary bytes incl. invalid UTF-8, outside the region 'byte after the first dash is a UTF-8 continuation byte': no panic, accepted => digits-dash-digits with the reference value",
+  encodes=["StreamId::from_string", "StreamId::parse_u64_fast", "(two-line idiom of handle_xadd lines 53-55, copied into the harness)"],
+  bounds="<=4 arbitrary bytes, symbolic length; unwind 6")
+K("c15_xadd_idbytes_kf", "stream", ["C15", "C06"], tier="thorough", timeout=600, memsafe=True, expect="kf:KF-C15-xadd-id-char-boundary",
+  desc="region: byte after the first '-' is 0x80..0xBF (e.g. XADD k \"1-\\x80\" f v): &seq_str[1..] panics (not a char boundary)",
+  encodes=["StreamId::from_string"], bounds="<=4 arbitrary bytes; unwind 6")
+K("c15_parse_u64_20digits_rest", "stream", ["C15", "C06"], tier="quick", timeout=600,
+  desc="parse_u64_fast on 20 decimal digits whose value fits u64: exact value",
+  encodes=["StreamId::parse_u64_fast"], bounds="exactly 20 symbolic digits; unwind 22")
+K("c15_parse_u64_20digits_kf", "stream", ["C15", "C06"], tier="thorough", timeout=600, expect="kf:KF-C15-id-u64-wrap",
+  desc="region: 20-digit value above u64::MAX (e.g. 18446744073709551616-0): must be refused, ferrous wraps silently (accepted as 0-0...)",
+  encodes=["StreamId::parse_u64_fast"], bounds="exactly 20 symbolic digits; unwind 22")
+K("c15_cached_millis_total", "stream", ["C15", "C06"], tier="quick", timeout=600,
+  desc="get_cached_millis with an arbitrary wall-clock reading (also before the epoch, also behind the cached reading) and arbitrary cache content: no panic; result is the cached value or the reading in ms",
+  encodes=["storage::stream::get_cached_millis"], bounds="clock (i64 s, u32 ns) and cache content symbolic; unwind 4",
+  stubs=["std::time::SystemTime::now -> reading chosen by the harness (transmuted Timespec; layout asserted in the harness)"])
+K("c15_auto_id_rest", "stream", ["C15"], tier="quick", timeout=600,
+  desc="XADD * from a stream with one present entry, arbitrary last_id >= it, arbitrary wall clock (also behind last_id), outside the region 'seq == u64::MAX and clock <= last ms': new ID > last_id (hence > every ID ever added), all three last_id copies == new ID, XLEN + 1, entry appended with its field-value pair",
+  encodes=["Stream::add_auto", "StreamData::add_auto", "StreamId::generate_next_atomic"], bounds="1 entry; IDs, last_id, clock full-width symbolic; unwind 4",
+  stubs=VEC + CLONE0 + CLOCK, assumptions=[INV])
+K("c15_auto_id_kf", "stream", ["C15", "C06"], tier="thorough", timeout=600, expect="kf:KF-C15-auto-seq-overflow",
+  desc="region: last_id.seq == u64::MAX and wall clock <= last_id.millis (XADD k 5-18446744073709551615 ..; XADD k * ..): seq + 1 overflows (panic in debug, ID 5-0 < last in release)",
+  encodes=["StreamId::generate_next_atomic"], bounds="as c15_auto_id_rest", stubs=VEC + CLONE0 + CLOCK, assumptions=[INV])
+K("c15_auto_id_emptied", "stream", ["C15"], tier="quick", timeout=600,
+  desc="XADD * on an empty stream with arbitrary last_id (new stream 0-0, or emptied by XDEL/XTRIM): new ID > last_id; metadata agree",
+  encodes=["Stream::add_auto", "StreamId::generate_next_atomic"], bounds="0 entries; last_id, clock symbolic (outside the KF-C15-auto-seq-overflow region); unwind 4",
+  stubs=VEC + CLONE0 + CLOCK, assumptions=[INV])
+K("c15_add_explicit", "stream", ["C15"], tier="quick", timeout=900,
+  desc="XADD with explicit ID on a 2-entry stream: id <= last_id refused with entries, last_id copies, XLEN and memory counter unchanged; id > last_id appended, becomes last_id in all copies, keeps its field-value pair",
+  encodes=["Stream::add_with_id", "StreamData::add_with_id", "StreamData::calculate_entry_size"], bounds="2 entries; all IDs full-width symbolic; unwind 5",
+  stubs=VEC + CLONE0, assumptions=[INV])
+for d, nm in ((False, "fwd"), (True, "rev")):
+    K("c15_range_%s_n3_rest" % nm, "stream", ["C15"], tier="quick", timeout=900,
+      desc="%s on a 3-entry stream, start/end/COUNT arbitrary, outside the region 'end below the first entry and start <= first entry': reply == present entries with start <= id <= end, in %s order, first COUNT; state untouched" % ("XREVRANGE" if d else "XRANGE", "reverse" if d else "ID"),
+      encodes=["Stream::range", "StreamData::range"], bounds="3 entries with empty field maps; IDs, bounds full-width symbolic; COUNT any Option<usize>; unwind 5",
+      stubs=VEC + CLONE0, assumptions=[INV])
+    K("c15_range_%s_n3_kf" % nm, "stream", ["C15"], tier="thorough", timeout=900, expect="kf:KF-C15-range-end-below-first",
+      desc="region: end < first present ID and start <= first present ID (e.g. entries 5-0.., %s): reply must be empty, ferrous returns the first entry" % ("XREVRANGE k 3 1" if d else "XRANGE k 1 3"),
+      encodes=["StreamData::range"], bounds="as the _rest harness", stubs=VEC + CLONE0, assumptions=[INV])
+K("c15_range_n0_emptied", "stream", ["C15"], tier="quick", timeout=300,
+  desc="XRANGE/XREVRANGE on an emptied stream (0 entries, arbitrary last_id): empty reply, no panic",
+  encodes=["Stream::range", "StreamData::range"], bounds="0 entries; bounds, COUNT, direction symbolic; unwind 5", stubs=VEC + CLONE0, assumptions=[INV])
+K("c15_range_fwd_n1_rest", "stream", ["C15"], tier="thorough", timeout=600,
+  desc="XRANGE on a 1-entry stream (same claim as c15_range_fwd_n3_rest)", encodes=["StreamData::range"],
+  bounds="1 entry; unwind 5", stubs=VEC + CLONE0, assumptions=[INV])
+K("c15_range_fields", "stream", ["C15"], tier="thorough", timeout=1800,
+  desc="XRANGE reply carries the stored field-value pair of every selected entry (2 entries, one 1-byte pair each, symbolic bytes, symbolic bounds outside the known-finding region)",
+  encodes=["Stream::range", "StreamData::range"], bounds="2 entries; unwind 5",
+  stubs=VEC + ["<StreamEntry as Clone>::clone -> exact clone for entries with exactly one 1-byte field and 1-byte value (shape asserted inside the stub)"], assumptions=[INV])
+K("c15_range_after_n3", "stream", ["C15"], tier="quick", timeout=900,
+  desc="XREAD core: range_after(id, COUNT) on a 3-entry stream == present entries with ID > id, in order, first COUNT (id present, absent, below, above); state untouched",
+  encodes=["Stream::range_after", "StreamData::range_after"], bounds="3 entries; IDs, after, COUNT symbolic; unwind 5", stubs=VEC + CLONE0, assumptions=[INV])
+K("c15_delete_one_n3", "stream", ["C15"], tier="quick", timeout=900,
+  desc="XDEL of one arbitrary ID on a 3-entry stream: exactly that entry (if present) disappears, reply 0/1, XLEN == present entries, last_id (all copies) unchanged even when the top entry goes, memory counter no underflow",
+  encodes=["Stream::delete", "StreamData::calculate_entry_size"], bounds="3 entries, 1 ID; all symbolic; unwind 4", assumptions=[INV])
+K("c15_delete_two_n2", "stream", ["C15"], tier="thorough", timeout=1500,
+  desc="XDEL of two arbitrary IDs (present, absent, equal to each other) on a 2-entry stream: the same ID twice counts once; post-state as c15_delete_one_n3",
+  encodes=["Stream::delete"], bounds="2 entries, 2 IDs; unwind 4",
+  stubs=["std::ptr::copy -> per-element moves in the overlap-safe direction (exact memmove)"], assumptions=[INV])
+K("c15_trim_count_n3", "stream", ["C15"], tier="quick", timeout=600,
+  desc="XTRIM MAXLEN n on a 3-entry stream, every n: the newest min(n,3) entries stay, reply == removed, XLEN agrees, last_id unchanged (also when trimmed to empty)",
+  encodes=["Stream::trim_by_count"], bounds="3 entries; n any usize; unwind 4", assumptions=[INV])
+K("c15_trim_minid_n3", "stream", ["C15"], tier="thorough", timeout=600,
+  desc="trim_by_min_id on a 3-entry stream: exactly the entries below min_id go; last_id unchanged (not reachable from a command: XTRIM MINID is not implemented)",
+  encodes=["Stream::trim_by_min_id"], bounds="3 entries; min_id symbolic; unwind 4", assumptions=[INV])
